@@ -193,8 +193,31 @@ class ObjMachine(Machine):
         return dict(op="obj_new", cls=cls, line=line, kw=kw, members=members,
                     note=w.randrange(len(NOTES)), subnote=w.random() < 0.5)
 
+    def _gen_cfg(self, w):
+        cfg = self.cfg
+        plat = cfg["platform"]
+        gcfg = dict(cfg, p_group=0.5, p_heading=0.0)
+        acls_ = []
+        for name in ("CF1", "CF2"):
+            lines, _ = gen.gen_acl_lines(w, gcfg, plat, "0")
+            grp = w.choice(gen.GROUP_NAMES[:2])
+            lines.append(("permit ip addrgroup " if plat == "nxos" else "permit ip object-group ")
+                         + grp + " any")
+            acls_.append(dict(name=name, lines=lines))
+        groups = {}
+        for g in gen.GROUP_NAMES:
+            mem = []
+            for _ in range(w.randint(1, 3)):
+                k = w.choice([0, 2, 8])
+                mask = (1 << k) - 1
+                mem.append([gen._base(w) & ~mask & 0xFFFFFFFF, mask])
+            groups[g] = mem
+        return dict(op="cfg_new", platform=plat, acls=acls_, groups=groups)
+
     def next_op(self, st: Streams) -> dict:
         w, s = st.w, st.s
+        if not self.slots and s.random() < 0.15:
+            return self._gen_cfg(w)
         if not self.slots or (len(self.slots) < 3 and s.random() < 0.25):
             return self._gen_new(w)
         t = s.randrange(len(self.slots))
@@ -251,6 +274,43 @@ class ObjMachine(Machine):
                 self._fail("C16.identifier-collision",
                            f"{cname}: two different parts of one object carry the identifier "
                            f"{dup[-6:]} after {self._cur_op}", cls=cname)
+
+    def _op_cfg_new(self, op):
+        """Two ACLs from one cisco_acl.acls(config) call that reference the same address groups:
+        distinct objects, no shared mutable state."""
+        import cisco_acl
+        plat = op["platform"]
+        parts = []
+        for g, mem in op["groups"].items():
+            parts.append(("object-group ip address " if plat == "nxos"
+                          else "object-group network ") + g)
+            for base, mask in mem:
+                if mask == 0:
+                    parts.append(f" host {gen.ip(base)}")
+                elif plat == "nxos":
+                    parts.append(f" {gen.ip(base)}/{gen.plen(mask)}")
+                else:
+                    parts.append(f" {gen.ip(base)} {gen.ip(~mask & 0xFFFFFFFF)}")
+        for a in op["acls"]:
+            parts.append(gen.header(plat, "extended", a["name"]))
+            parts.extend(" " + ln for ln in a["lines"])
+        try:
+            objs = cisco_acl.acls("\n".join(parts), platform=plat)
+        except DOCUMENTED:
+            return "rejected"
+        if len(objs) < 2:
+            return "noop"
+        self.slots = [dict(cls="Acl", obj=o, from_cfg=True) for o in objs[:2]]
+        ga, gb = walk_mutable(objs[0]), walk_mutable(objs[1])
+        bad = (set(ga) & set(gb)) - note_ids(objs[0])
+        if bad:
+            b = next(iter(bad))
+            self._fail("C16.aliasing", f"two ACLs returned by one acls(config) call share mutable "
+                                       f"state at {ga[b]}", cls="Acl", between="acls(config)")
+        self.did += 1
+        self.probes["acls_from_config"] += 1
+        self.trace.append(("cfg",))
+        return "ok"
 
     def _op_interleave(self, op):
         """The same operations on a source and on its copy, interleaved, must leave the source
@@ -660,6 +720,7 @@ class ObjMachine(Machine):
         if kind == "resequence" and cname != "AddrGroup" and any(
                 isinstance(it, AceGroup) and not it.items for it in x.items):
             return "noop"
+        bystanders = [(o, snapshot(o["obj"])) for o in self.slots if o is not slot]
         before = self._idmap(x, cname)
         # L3 of every leaf ACE
         l3_before = {}
@@ -708,6 +769,11 @@ class ObjMachine(Machine):
                 self.slots.remove(slot)
                 return type(ex).__name__  # mixed-type ordering is not C16's business
             raise
+        for o, snap in bystanders:
+            if snapshot(o["obj"]) != snap:
+                self._fail("C16.independence", f"{cname}.{kind} on one live object changed "
+                                               f"another live {o['cls']}", cls=cname,
+                           transformation=kind)
         after = self._idmap(x, cname)
         disc = dict(transformation=kind, cls=cname)
         # L0
